@@ -275,6 +275,8 @@ FN = {
     "np.median": np.median,
     "np.max": np.max,
     "np.min": np.min,
+    "np.std": np.std,
+    "np.var": np.var,
     "stat_range": stat_range,
     "stat_first": stat_first,
     "pen_flat": pen_flat,
@@ -320,6 +322,7 @@ def register_classes():
         LocalAnomalyScore,
         stubs.AbsDevCost,
         stubs.ScriptedDetector,
+        stubs.ScriptedDetectorNoFit,
     ]:
         CLS[c.__name__] = c
     return CLS
